@@ -112,6 +112,8 @@ static void check_diags(void)
 		if (g_so.diag_required) CHECK("C06", d >= 1 && g_diag_cfg == &h_cfg, "a rejection by the parser is reported through the error function of the current context");
 		else if (g_so.diag_by_callee) CHECK("C06", d >= 1, "a rejection found by a callee (scanner, lookup, conversion, nested parse) has been reported");
 		/* silent causes: callback veto, allocation failure - no diagnostic demanded */
+	} else if (in_state == 0 && in_tok == CFGT_STR && !in_found && !g_si.ctx_ignore_unknown && g_si.ctx_keystrval && in_addopt_ok && !(g_so.deprecated_diag)) {
+		KFCHECK("C06-freeform-key-diagnostic", "C06", d == 0, "creating a key in a free-form section is an accepted step: it delivers no diagnostic");
 	} else if (g_so.no_diag) {
 		CHECK("C06,C12,C15", d == 0, "an accepted step delivers no diagnostic");
 	} else if (g_so.deprecated_diag && !g_so.deprecated_optional) {
